@@ -8,6 +8,7 @@ import (
 	"fmt"
 	"net"
 	"os"
+	"sort"
 	"strings"
 	"sync"
 	"testing"
@@ -129,6 +130,68 @@ func c02ExpiryRace() *sched.Scenario {
 				_ = late
 
 				return out
+			}, func() { _ = w.Srv.Close() }
+		}}
+}
+
+// ---------------------------------------------------------------- C05
+
+// c05StreamRelayVsResponse: over a stream listener two goroutines write to the client's connection: the relay loop
+// of the allocation (a peer's datagram as ChannelData, another one as a Data indication) and the connection's read
+// loop (the response to a Refresh). However their writes interleave, the client reads whole frames: exactly the two
+// relayed payloads, byte-identical, and the response - a frame is written in one piece.
+func c05StreamRelayVsResponse() *sched.Scenario {
+	return &sched.Scenario{Name: "c05-relayed-frames-vs-response-on-one-stream", Bound: bound(), FreeBound: 3, Opt: opt,
+		Body: func(*vsched.Sched) (func() []string, func()) {
+			w := sched.NewBW(sched.BCfg{Stream: true})
+			c := w.NewClient("c1")
+			pa, pb := w.NewPeer("A"), w.NewPeer("B")
+			var nt notes
+			const viaChannel, viaIndication = "thirty-seven bytes through channel B!", "and these through a data indication"
+			vsched.Go("client", func() {
+				r := c.Do(wire.Allocate, udp)
+				relay, _ := r.XorAddr(wire.AttrXORRelayedAddress)
+				c.Do(wire.CreatePermission, peer("A"))
+				c.Do(wire.ChannelBind, chanAttrs(0x4000, "B"))
+				vsched.Mark()
+				vsched.Go("peers", func() {
+					_, _ = pb.WriteTo([]byte(viaChannel), relay)
+					_, _ = pa.WriteTo([]byte(viaIndication), relay)
+				})
+				rr := c.Do(wire.Refresh, lifetime(600))
+				nt.set("refresh", fmt.Sprintf("%d/%d", rr.Class, rr.ErrorCode()))
+				vsched.IdleSleep(time.Second)
+				c.Inbox = append(c.Inbox, c.Recv()...)
+				var got []string
+				for _, rx := range c.Inbox {
+					switch {
+					case rx.Bad != "":
+						got = append(got, "undecodable:"+rx.Bad)
+					case rx.Msg == nil:
+						got = append(got, fmt.Sprintf("chan(%#x,%q)", rx.Chan, rx.Data))
+					case rx.Msg.Method == wire.Data:
+						d, _ := rx.Msg.Get(wire.AttrData)
+						got = append(got, fmt.Sprintf("data(%q)", d))
+					default:
+						got = append(got, "other:"+rx.String())
+					}
+				}
+				sort.Strings(got)
+				nt.set("inbox", strings.Join(got, " | "))
+			})
+
+			return func() []string {
+				want := fmt.Sprintf("chan(0x4000,%q) | data(%q)", viaChannel, viaIndication)
+				switch {
+				case nt.get("inbox") == "" && nt.get("refresh") == "":
+					return []string{"c05:client-never-saw-the-response(stream-out-of-step)"}
+				case nt.get("refresh") != fmt.Sprintf("%d/0", wire.Success):
+					return []string{"c05:refresh-not-answered-success:" + nt.get("refresh")}
+				case nt.get("inbox") != want:
+					return []string{"c05:frames-on-the-stream-differ-from-what-was-relayed\ngot  " + nt.get("inbox") + "\nwant " + want}
+				}
+
+				return nil
 			}, func() { _ = w.Srv.Close() }
 		}}
 }
@@ -927,6 +990,8 @@ func TestC19Sched(t *testing.T) {
 func TestC07Sched(t *testing.T) { run(t, "C07", c07RefreshVsExpiry("perm"), c07RefreshVsExpiry("chan")) }
 func TestC06Sched(t *testing.T) { run(t, "C06", c06Realloc(), c06ReallocVsTimer(), c06Reconnect(), c06RefreshVsExpiry()) }
 // c06Reconnect is an isolation matter as well: the party that no longer owns the 5-tuple (the old connection) acts on the allocation now occupying it.
+func TestC05Sched(t *testing.T) { run(t, "C05", c05StreamRelayVsResponse()) }
+
 func TestC04Sched(t *testing.T) { run(t, "C04", c04TwoConns(), c06Reconnect()) }
 func TestC16Sched(t *testing.T) { run(t, "C16", c16TwoBinds(), c16BindVsTimeout()) }
 func TestC15Sched(t *testing.T) {
